@@ -27,7 +27,7 @@ func (h *H) runGenBurst(r *Rig, p *Peer, ctr0 uint32, tag string, next func(i in
 		return fmt.Sprintf("B %s %d | %s | %s", r.Cfg.M(), ctr0, strings.Join(bursts, " / "), strings.Join(obs, " ; "))
 	}
 	fail := func(class, kind, detail string) {
-		c.Fail(fmt.Sprintf("E37 table violated (pipelined): class=%s: %s", class, kind), caseSoFar()+" ## "+detail)
+		c.Fail(fmt.Sprintf("E37 table violated (pipelined): class=%s: %s", class, kind), caseSoFar()+" ## "+detail+r.Cfg.Tag())
 	}
 	emit := func(ended bool) {
 		line := caseSoFar()
@@ -345,7 +345,7 @@ func (h *H) randomBurst(n int) {
 	rng := h.c.Rng
 	done := 0
 	for done < n {
-		cfg := Cfg{Active: rng.Intn(2) == 0, Validate: rng.Intn(2) == 0, Equip: rng.Intn(2) == 0}
+		cfg := Cfg{Active: rng.Intn(2) == 0, Validate: rng.Intn(2) == 0, Equip: rng.Intn(2) == 0, Trace: rng.Intn(2) == 0}
 		switch rng.Intn(3) {
 		case 0:
 			cfg.Sid = 0xFFFF
